@@ -870,3 +870,518 @@ Proof.
   rewrite <- Ets.
   apply insert_repr; auto.
 Qed.
+
+(* ================================================================ 11. copy *)
+Lemma tsize_ids : forall t, tsize t = length (ids t).
+Proof.
+  induction t as [i ts IH] using tree_ind'. simpl. f_equal.
+  induction ts as [|y r IHr]; [reflexivity|]. inversion IH as [|? ? Py Pr]; subst.
+  simpl. rewrite app_length, Py, (IHr Pr). reflexivity.
+Qed.
+
+Lemma map_opt_cons : forall {A B} (f : A -> option B) x r,
+  map_opt f (x :: r) = match f x with
+                       | Some y => match map_opt f r with Some ys => Some (y :: ys) | None => None end
+                       | None => None
+                       end.
+Proof. reflexivity. Qed.
+
+Lemma build_S : forall f h i,
+  build (S f) h i = match get h i with
+                    | None => None
+                    | Some nd => match map_opt (build f h) (children nd) with
+                                 | Some ts => Some (T i ts)
+                                 | None => None
+                                 end
+                    end.
+Proof. reflexivity. Qed.
+
+Lemma build_complete_fuel : forall h t p, repr h p t ->
+  forall fuel, tsize t <= fuel -> build fuel h (tid t) = Some t.
+Proof.
+  intros h. induction t as [i ts IH] using tree_ind'. intros p Hr fuel Hf.
+  destruct fuel as [|f]; [simpl in Hf; lia|].
+  apply repr_inv in Hr. destruct Hr as (nd & Hg & _ & Hc & _ & Hfa).
+  simpl tid. rewrite build_S, Hg, Hc.
+  assert (map_opt (build f h) (map tid ts) = Some ts) as ->; [|reflexivity].
+  simpl in Hf. assert (Hs : list_sum (map tsize ts) <= f) by lia. clear Hf Hg Hc.
+  induction ts as [|y r IHr]; [reflexivity|].
+  inversion IH as [|? ? Py Pr]; subst. inversion Hfa as [|? ? Ry Rr]; subst. simpl in Hs.
+  simpl map. rewrite map_opt_cons. rewrite (Py _ Ry) by lia. rewrite IHr; auto. lia.
+Qed.
+
+Lemma get_In_keys : forall h j nd, get h j = Some nd -> In j (map fst h).
+Proof.
+  induction h as [|[k v] h IH]; intros j nd H; simpl in *; [discriminate|].
+  destruct (N.eqb_spec j k); eauto.
+Qed.
+
+Lemma build_complete : forall h p s, repr h p s -> NoDup (ids s) ->
+  build (S (length h)) h (tid s) = Some s.
+Proof.
+  intros h p s Hr Hnd. apply build_complete_fuel with (p := p); auto.
+  rewrite tsize_ids. rewrite <- (map_length fst h).
+  apply Nat.le_trans with (length (map fst h)); [|lia].
+  apply NoDup_incl_length; auto.
+  intros j Hj. destruct (repr_get _ _ _ _ Hr Hj) as [nd Hg]. eapply get_In_keys; eauto.
+Qed.
+
+Lemma nodupb_true : forall l, NoDup l -> nodupb l = true.
+Proof.
+  induction 1 as [|x l Hx Hl IH]; [reflexivity|]. simpl. rewrite IH, (memb_false _ _ Hx). reflexivity.
+Qed.
+
+Lemma opt_eqb_refl : forall a, opt_eqb a a = true.
+Proof. intros [x|]; simpl; auto. apply N.eqb_refl. Qed.
+
+Lemma checkp_true : forall h p s, repr h p s -> checkp h p s = true.
+Proof.
+  intros h p s Hr. induction Hr as [p i ts nd Hg Hp Hc Ht Hf IH] using repr_ind'.
+  simpl. rewrite Hg, Hp, opt_eqb_refl. simpl.
+  assert (negb (N.eqb (cls nd) c_Text) || is_nil ts = true) as ->.
+  { destruct (N.eqb_spec (cls nd) c_Text) as [E|E]; [rewrite (Ht E)|]; reflexivity. }
+  simpl. apply forallb_forall. rewrite Forall_forall in IH. auto.
+Qed.
+
+Lemma fold_max_ge : forall l a,
+  (a <= fold_left N.max l a)%N /\ forall x, In x l -> (x <= fold_left N.max l a)%N.
+Proof.
+  induction l as [|b l IH]; intros a; simpl.
+  - split; [lia | tauto].
+  - destruct (IH (N.max a b)) as [A B]. split; [lia|]. intros x [<-|H]; [lia | auto].
+Qed.
+
+Lemma fresh_gt : forall h j nd, get h j = Some nd -> (j < fresh h)%N.
+Proof.
+  intros h j nd H. apply get_In_keys in H. unfold fresh.
+  destruct (fold_max_ge (map fst h) 0%N) as [_ B]. specialize (B _ H). lia.
+Qed.
+
+Lemma ren_in : forall l nx i, In i l ->
+  exists k, index_of i l = Some k /\ ren l nx i = (nx + N.of_nat k)%N.
+Proof.
+  intros l nx i H. destruct (index_of_In _ _ H) as [k Hk]. exists k. split; auto.
+  unfold ren. rewrite Hk. reflexivity.
+Qed.
+
+Lemma index_of_inj : forall l a b k, index_of a l = Some k -> index_of b l = Some k -> a = b.
+Proof.
+  induction l as [|x r IH]; intros a b k Ha Hb; simpl in *; [discriminate|].
+  destruct (N.eqb_spec a x), (N.eqb_spec b x); subst; auto.
+  - destruct (index_of b r); inversion Ha; subst; discriminate.
+  - destruct (index_of a r); inversion Hb; subst; discriminate.
+  - destruct (index_of a r) eqn:Ea, (index_of b r) eqn:Eb; try discriminate.
+    inversion Ha; inversion Hb; subst. inversion H1; subst. eauto.
+Qed.
+
+Lemma ren_ge : forall l nx i, In i l -> (nx <= ren l nx i)%N.
+Proof. intros l nx i H. destruct (ren_in l nx i H) as (k & _ & ->). lia. Qed.
+
+Lemma ren_inj : forall l nx a b, In a l -> In b l -> ren l nx a = ren l nx b -> a = b.
+Proof.
+  intros l nx a b Ha Hb E.
+  destruct (ren_in l nx a Ha) as (ka & Ia & Ra). destruct (ren_in l nx b Hb) as (kb & Ib & Rb).
+  rewrite Ra, Rb in E. assert (ka = kb) by lia. subst kb. eapply index_of_inj; eauto.
+Qed.
+
+Definition ccell (h : heap) (l : list N) (nx root i : N) : node :=
+  mkNode (clsof h i) (if N.eqb i root then None else option_map (ren l nx) (par h i))
+         (map (ren l nx) (kids h i)) (textof h i).
+
+Lemma get_copy_cells_gen : forall h l nx root l' j,
+  get (fold_right (fun i acc => set acc (ren l nx i) (ccell h l nx root i)) h l') j =
+  match find (fun i => N.eqb j (ren l nx i)) l' with
+  | Some i => Some (ccell h l nx root i)
+  | None => get h j
+  end.
+Proof.
+  induction l' as [|a l' IH]; intros j; simpl; [reflexivity|].
+  destruct (N.eqb j (ren l nx a)); auto.
+Qed.
+
+Lemma find_hit : forall (r : N -> N) l' i0, In i0 l' ->
+  (forall a b, In a l' -> In b l' -> r a = r b -> a = b) ->
+  find (fun i => N.eqb (r i0) (r i)) l' = Some i0.
+Proof.
+  induction l' as [|a l' IH]; intros i0 Hi Hinj; [destruct Hi|]. simpl.
+  destruct (N.eqb_spec (r i0) (r a)) as [E|E].
+  - f_equal. symmetry. apply Hinj; simpl; auto.
+  - destruct Hi as [->|Hi]; [congruence|]. apply IH; auto.
+    intros; apply Hinj; simpl; auto.
+Qed.
+
+Lemma find_miss : forall (r : N -> N) l' j, (forall i, In i l' -> r i <> j) ->
+  find (fun i => N.eqb j (r i)) l' = None.
+Proof.
+  induction l' as [|a l' IH]; intros j H; [reflexivity|]. simpl.
+  destruct (N.eqb_spec j (r a)) as [E|E].
+  - exfalso. apply (H a); simpl; auto.
+  - apply IH. intros; apply H; simpl; auto.
+Qed.
+
+Lemma copy_cells_get_new : forall h l root i, In i l ->
+  get (copy_cells h l (fresh h) root) (ren l (fresh h) i) = Some (ccell h l (fresh h) root i).
+Proof.
+  intros h l root i Hi. unfold copy_cells.
+  change (get (fold_right (fun i acc => set acc (ren l (fresh h) i) (ccell h l (fresh h) root i)) h l)
+              (ren l (fresh h) i) = Some (ccell h l (fresh h) root i)).
+  rewrite get_copy_cells_gen. rewrite find_hit; auto.
+  intros a b Ha Hb. apply ren_inj; auto.
+Qed.
+
+Lemma copy_cells_get_old : forall h l root j nd, get h j = Some nd ->
+  get (copy_cells h l (fresh h) root) j = get h j.
+Proof.
+  intros h l root j nd Hj. unfold copy_cells.
+  change (get (fold_right (fun i acc => set acc (ren l (fresh h) i) (ccell h l (fresh h) root i)) h l) j
+          = get h j).
+  rewrite get_copy_cells_gen. rewrite find_miss; auto.
+  intros i Hi E. pose proof (ren_ge l (fresh h) i Hi). pose proof (fresh_gt _ _ _ Hj). lia.
+Qed.
+
+Lemma tid_t_map : forall f t, tid (t_map f t) = f (tid t).
+Proof. intros f [i ts]. reflexivity. Qed.
+
+Lemma ids_t_map : forall f t, ids (t_map f t) = map f (ids t).
+Proof.
+  intros f. induction t as [i ts IH] using tree_ind'. simpl. f_equal.
+  induction ts as [|y r IHr]; [reflexivity|]. inversion IH as [|? ? Py Pr]; subst.
+  simpl. rewrite map_app, Py, (IHr Pr). reflexivity.
+Qed.
+
+Lemma copy_sub : forall h l root x q,
+  repr h (Some q) x -> incl (ids x) l -> ~ In root (ids x) ->
+  repr (copy_cells h l (fresh h) root) (Some (ren l (fresh h) q)) (t_map (ren l (fresh h)) x).
+Proof.
+  intros h l root. induction x as [i ts IH] using tree_ind'. intros q Hr Hi Hroot.
+  pose proof (repr_kids _ _ _ _ Hr) as Hk. pose proof (repr_root_par _ _ _ Hr) as Hp. simpl in Hp.
+  apply repr_inv in Hr. destruct Hr as (nd & Hg & Hpar & Hcd & Htx & Hf).
+  rewrite Forall_forall in Hf, IH.
+  assert (Hil : In i l) by (apply Hi; simpl; auto).
+  simpl. eapply repr_T with (nd := ccell h l (fresh h) root i).
+  - apply copy_cells_get_new; auto.
+  - simpl. destruct (N.eqb_spec i root) as [E|E]; [exfalso; apply Hroot; simpl; auto|].
+    rewrite Hp. reflexivity.
+  - simpl. rewrite Hk, !map_map. apply map_ext. intros. rewrite tid_t_map. reflexivity.
+  - simpl. intro Hc. unfold clsof in Hc. rewrite Hg in Hc. rewrite (Htx Hc). reflexivity.
+  - rewrite Forall_forall. intros x' Hx'. apply in_map_iff in Hx'. destruct Hx' as (x & <- & Hx).
+    apply IH; auto.
+    + intros j Hj. apply Hi. simpl. right. apply in_flat_map. eauto.
+    + intro F. apply Hroot. simpl. right. apply in_flat_map. eauto.
+Qed.
+
+Lemma flat_map_map : forall {A B C} (f : B -> list C) (g : A -> B) l,
+  flat_map f (map g l) = flat_map (fun x => f (g x)) l.
+Proof. induction l as [|a l IH]; simpl; auto. rewrite IH. reflexivity. Qed.
+
+Lemma words_copy : forall h l root x, incl (ids x) l ->
+  words_t (copy_cells h l (fresh h) root) (t_map (ren l (fresh h)) x) = words_t h x.
+Proof.
+  intros h l root. induction x as [i ts IH] using tree_ind'. intros Hi. simpl. f_equal.
+  - unfold textof at 1. rewrite copy_cells_get_new by (apply Hi; simpl; auto). reflexivity.
+  - rewrite flat_map_map. apply flat_map_ext_in. intros x Hx. rewrite Forall_forall in IH.
+    apply IH; auto. intros j Hj. apply Hi. simpl. right. apply in_flat_map. eauto.
+Qed.
+
+Lemma NoDup_map_inj_in : forall (f : N -> N) l, NoDup l ->
+  (forall a b, In a l -> In b l -> f a = f b -> a = b) -> NoDup (map f l).
+Proof.
+  induction 1 as [|x l Hx Hl IH]; intros Hinj; simpl; constructor.
+  - intro F. apply in_map_iff in F. destruct F as (y & E & Hy).
+    assert (y = x) by (apply Hinj; simpl; auto). subst y. contradiction.
+  - apply IH. intros; apply Hinj; simpl; auto.
+Qed.
+
+Lemma copy_repr : forall h t n s, repr h None t -> NoDup (ids t) -> t_find n t = Some s ->
+  exists h' k, copy h n = Some (h', k) /\ repr h' None t /\
+    (exists s', tid s' = k /\ repr h' None s' /\ NoDup (ids s') /\ disj (ids t) (ids s') /\
+                words_t h' s' = words_t h s).
+Proof.
+  intros h t n s Hr Hnd Hfs.
+  destruct (t_find_repr _ _ _ _ _ Hr Hfs) as [q Hrs].
+  destruct (t_find_some _ _ _ Hfs) as [Ets _].
+  pose proof (t_find_NoDup _ _ _ Hnd Hfs) as Hnds.
+  pose proof (repr_root_par _ _ _ Hrs) as Hq. rewrite Ets in Hq.
+  pose proof (build_complete _ _ _ Hrs Hnds) as Hb. rewrite Ets in Hb.
+  exists (copy_cells h (ids s) (fresh h) n), (fresh h).
+  split.
+  { unfold copy. rewrite Hb, (nodupb_true _ Hnds), Hq, (checkp_true _ _ _ Hrs). reflexivity. }
+  set (l := ids s). set (h' := copy_cells h l (fresh h) n). set (r := ren l (fresh h)).
+  assert (Hold : forall j, In j (ids t) -> get h' j = get h j).
+  { intros j Hj. destruct (repr_get _ _ _ _ Hr Hj) as [nd Hg]. eapply copy_cells_get_old; eauto. }
+  split; [apply repr_frame with (h := h); auto|].
+  exists (t_map r s). destruct s as [n' ts]. simpl in Ets. subst n'.
+  assert (Hnl : In n l) by (unfold l; simpl; auto).
+  assert (Hrn : r n = fresh h).
+  { unfold r, ren, l. simpl. rewrite N.eqb_refl. simpl. lia. }
+  split; [rewrite tid_t_map; exact Hrn|]. split; [|split; [|split]].
+  - pose proof (repr_kids _ _ _ _ Hrs) as Hk.
+    apply repr_inv in Hrs. destruct Hrs as (nd & Hg & Hpar & Hcd & Htx & Hf).
+    rewrite Forall_forall in Hf. simpl in Hnds. apply NoDup_cons_iff in Hnds. destruct Hnds as [Hn0 _].
+    simpl. eapply repr_T with (nd := ccell h l (fresh h) n n).
+    + apply copy_cells_get_new; auto.
+    + simpl. rewrite N.eqb_refl. reflexivity.
+    + simpl. rewrite Hk, !map_map. apply map_ext. intros. rewrite tid_t_map. reflexivity.
+    + simpl. intro Hc. unfold clsof in Hc. rewrite Hg in Hc. rewrite (Htx Hc). reflexivity.
+    + rewrite Forall_forall. intros x' Hx'. apply in_map_iff in Hx'. destruct Hx' as (x & <- & Hx).
+      apply copy_sub; auto.
+      * intros j Hj. unfold l. simpl. right. apply in_flat_map. eauto.
+      * intro F. apply Hn0. apply in_flat_map. eauto.
+  - rewrite ids_t_map. apply NoDup_map_inj_in; auto.
+    intros a b Ha Hb'. apply ren_inj; auto.
+  - intros j Hj F. rewrite ids_t_map in F. apply in_map_iff in F. destruct F as (i & E & Hi).
+    destruct (repr_get _ _ _ _ Hr Hj) as [nd Hg]. pose proof (fresh_gt _ _ _ Hg).
+    pose proof (ren_ge l (fresh h) i Hi). unfold r in E. lia.
+  - apply words_copy. apply incl_refl.
+Qed.
+
+(* ================================================================ 12. WF is preserved (F) *)
+Theorem append_child_preserves_WF : forall h r t p s,
+  tid t = r -> repr h None t -> NoDup (ids t) -> In p (ids t) -> clsof h p <> c_Text ->
+  repr h None s -> NoDup (ids s) -> disj (ids t) (ids s) ->
+  WF (append_child h p (tid s)) r.
+Proof.
+  intros h r t p s Er Hr Hnd Hp Hc Hrs Hnds Hd.
+  destruct (append_child_repr h t s p Hr Hnd Hp Hc Hrs Hnds Hd) as [A B].
+  exists (t_append p s t). rewrite tid_t_append. auto.
+Qed.
+
+Theorem replace_child_preserves_WF : forall h r t p c ns,
+  tid t = r -> repr h None t -> NoDup (ids t) -> In p (ids t) -> In c (kids h p) ->
+  Forall (repr h None) ns -> NoDup (flat_map ids ns) -> disj (ids t) (flat_map ids ns) ->
+  exists h', replace_child h p c (map tid ns) = Ok h' /\ WF h' r /\ WFsub h' None c.
+Proof.
+  intros h r t p c ns Er Hr Hnd Hp Hc Hns Hndn Hd.
+  destruct (replace_child_repr h t p c ns Hr Hnd Hp Hc Hns Hndn Hd) as (h' & H1 & H2 & H3 & H4).
+  destruct (child_setup _ _ _ _ Hr Hnd Hp Hc)
+    as (s & idx & _ & _ & _ & Hfs & _ & Ets & Hnds & _).
+  exists h'. split; auto. split.
+  - exists (t_replace c ns t). rewrite tid_t_replace. auto.
+  - exists s. auto.
+Qed.
+
+Theorem remove_child_preserves_WF : forall h r t p c,
+  tid t = r -> repr h None t -> NoDup (ids t) -> In p (ids t) -> In c (kids h p) ->
+  exists h', remove_child h p c = Ok h' /\ WF h' r /\ WFsub h' None c.
+Proof.
+  intros h r t p c Er Hr Hnd Hp Hc.
+  destruct (replace_child_preserves_WF h r t p c [] Er Hr Hnd Hp Hc) as (h' & H1 & H2).
+  - constructor.
+  - constructor.
+  - intros x _ F. exact F.
+  - exists h'. auto.
+Qed.
+
+Theorem dissolve_preserves_WF : forall h r t p c,
+  tid t = r -> repr h None t -> NoDup (ids t) -> In p (ids t) -> In c (kids h p) ->
+  exists h', replace_child h p c (kids h c) = Ok h' /\ WF h' r.
+Proof.
+  intros h r t p c Er Hr Hnd Hp Hc.
+  destruct (child_setup _ _ _ _ Hr Hnd Hp Hc)
+    as (s & idx & _ & _ & _ & Hfs & _ & Ets & _).
+  destruct s as [c' cs]. simpl in Ets. subst c'.
+  destruct (dissolve_repr h t p c cs Hr Hnd Hp Hc Hfs) as (h' & H1 & H2 & H3).
+  exists h'. split; auto. exists (t_replace c cs t). rewrite tid_t_replace. auto.
+Qed.
+
+Theorem move_to_preserves_WF : forall h r t n tgt b s,
+  tid t = r -> repr h None t -> NoDup (ids t) -> In n (ids t) -> n <> r ->
+  In tgt (ids t) -> tgt <> r -> t_find n t = Some s -> ~ In tgt (ids s) ->
+  exists h', move_to h n tgt b = Ok h' /\ WF h' r.
+Proof.
+  intros h r t n tgt b s Er Hr Hnd Hn Hnr Htg Htr Hfs Hts. subst r.
+  destruct (move_to_repr h t n tgt b s Hr Hnd Hn Hnr Htg Htr Hfs Hts) as (h' & H1 & H2 & H3).
+  exists h'. split; auto. exists (t_insert tgt b s (t_replace n [] t)).
+  rewrite tid_t_insert, tid_t_replace. auto.
+Qed.
+
+Theorem copy_preserves_WF : forall h r t n,
+  tid t = r -> repr h None t -> NoDup (ids t) -> In n (ids t) ->
+  exists h' k, copy h n = Some (h', k) /\ WF h' r /\ WFsub h' None k /\ words h' k = words h n.
+Proof.
+  intros h r t n Er Hr Hnd Hn.
+  destruct (t_find_ex _ _ Hn) as [s Hfs].
+  destruct (copy_repr h t n s Hr Hnd Hfs) as (h' & k & H1 & H2 & s' & E' & R' & N' & D' & W').
+  exists h', k. split; auto. split; [exists t; auto|]. split; [exists s'; auto|].
+  destruct (t_find_repr _ _ _ _ _ Hr Hfs) as [q Hrs].
+  destruct (t_find_some _ _ _ Hfs) as [Ets _].
+  pose proof (t_find_NoDup _ _ _ Hnd Hfs) as Hnds.
+  unfold words. rewrite <- E', <- Ets.
+  rewrite (build_complete _ _ _ R' N'), (build_complete _ _ _ Hrs Hnds). exact W'.
+Qed.
+
+(* ================================================================ 13. sequences of operations (G) *)
+Inductive op :=
+| OAppend (p c : N)
+| ORemove (p c : N)
+| OReplace (p c : N) (news : list N)
+| ODissolve (p c : N)
+| OMove (n tgt : N) (prefix : bool)
+| OCopy (n : N).
+
+Definition apply (h : heap) (o : op) : res :=
+  match o with
+  | OAppend p c => Ok (append_child h p c)
+  | ORemove p c => remove_child h p c
+  | OReplace p c news => replace_child h p c news
+  | ODissolve p c => replace_child h p c (kids h c)
+  | OMove n tgt b => move_to h n tgt b
+  | OCopy n => match copy h n with Some (h', _) => Ok h' | None => Err end
+  end.
+
+(* the stated preconditions of each call, on a heap whose document (root r) is the proper tree t *)
+Definition pre (h : heap) (r : N) (o : op) : Prop :=
+  exists t, tid t = r /\ repr h None t /\ NoDup (ids t) /\
+  match o with
+  | OAppend p c =>
+      In p (ids t) /\ clsof h p <> c_Text /\
+      exists s, tid s = c /\ repr h None s /\ NoDup (ids s) /\ disj (ids t) (ids s)
+  | ORemove p c => In p (ids t) /\ In c (kids h p)
+  | OReplace p c news =>
+      In p (ids t) /\ In c (kids h p) /\
+      exists ns, map tid ns = news /\ Forall (repr h None) ns /\ NoDup (flat_map ids ns) /\
+                 disj (ids t) (flat_map ids ns)
+  | ODissolve p c => In p (ids t) /\ In c (kids h p)
+  | OMove n tgt b =>
+      In n (ids t) /\ n <> r /\ In tgt (ids t) /\ tgt <> r /\
+      exists s, t_find n t = Some s /\ ~ In tgt (ids s)
+  | OCopy n => In n (ids t)
+  end.
+
+Fixpoint pre_all (h : heap) (r : N) (ops : list op) : Prop :=
+  match ops with
+  | [] => True
+  | o :: rest => pre h r o /\ forall h', apply h o = Ok h' -> pre_all h' r rest
+  end.
+
+Definition step (a : res) (o : op) : res := match a with Ok h => apply h o | Err => Err end.
+
+Lemma apply_preserves_WF : forall h r o, pre h r o -> exists h', apply h o = Ok h' /\ WF h' r.
+Proof.
+  intros h r o (t & Er & Hr & Hnd & Hside). destruct o as [p c|p c|p c news|p c|n tgt b|n]; simpl.
+  - destruct Hside as (Hp & Hc & s & Es & Hrs & Hnds & Hd). subst c.
+    eexists. split; [reflexivity|]. eapply append_child_preserves_WF; eauto.
+  - destruct Hside as (Hp & Hc).
+    destruct (remove_child_preserves_WF h r t p c Er Hr Hnd Hp Hc) as (h' & H1 & H2 & _). eauto.
+  - destruct Hside as (Hp & Hc & ns & En & Hns & Hndn & Hd). subst news.
+    destruct (replace_child_preserves_WF h r t p c ns Er Hr Hnd Hp Hc Hns Hndn Hd) as (h' & H1 & H2 & _). eauto.
+  - destruct Hside as (Hp & Hc).
+    destruct (dissolve_preserves_WF h r t p c Er Hr Hnd Hp Hc) as (h' & H1 & H2). eauto.
+  - destruct Hside as (Hn & Hnr & Htg & Htr & s & Hfs & Hts).
+    destruct (move_to_preserves_WF h r t n tgt b s Er Hr Hnd Hn Hnr Htg Htr Hfs Hts) as (h' & H1 & H2). eauto.
+  - destruct (copy_preserves_WF h r t n Er Hr Hnd Hside) as (h' & k & H1 & H2 & _).
+    rewrite H1. eauto.
+Qed.
+
+Lemma fold_step_Err : forall ops, fold_left step ops Err = Err.
+Proof. induction ops; simpl; auto. Qed.
+
+Theorem C05_api_preserves_WF_seq : forall ops h r,
+  WF h r -> pre_all h r ops -> exists h', fold_left step ops (Ok h) = Ok h' /\ WF h' r.
+Proof.
+  induction ops as [|o rest IH]; intros h r Hwf Hpre; simpl.
+  - eauto.
+  - destruct Hpre as [Hp Hrest].
+    destruct (apply_preserves_WF h r o Hp) as (h1 & E & Hwf1).
+    rewrite E. apply IH; auto.
+Qed.
+
+(* every intermediate heap of the sequence is WF as well *)
+Theorem C05_api_preserves_WF_prefix : forall ops1 ops2 h r,
+  WF h r -> pre_all h r (ops1 ++ ops2) ->
+  exists h1, fold_left step ops1 (Ok h) = Ok h1 /\ WF h1 r /\ pre_all h1 r ops2.
+Proof.
+  induction ops1 as [|o rest IH]; intros ops2 h r Hwf Hpre; simpl in *.
+  - eauto.
+  - destruct Hpre as [Hp Hrest].
+    destruct (apply_preserves_WF h r o Hp) as (h1 & E & Hwf1).
+    rewrite E. apply IH; auto.
+Qed.
+
+(* ---------------------------------------------------------------- non-vacuity *)
+Lemma pre_all_cons : forall h r o rest h1,
+  apply h o = Ok h1 -> pre h r o -> pre_all h1 r rest -> pre_all h r (o :: rest).
+Proof.
+  intros h r o rest h1 E Hp Hr. simpl. split; auto.
+  intros h' E'. rewrite E in E'. inversion E'; subst. auto.
+Qed.
+
+Lemma nodupb_NoDup : forall l, nodupb l = true -> NoDup l.
+Proof.
+  induction l as [|x l IH]; intros H; constructor; simpl in H; apply andb_true_iff in H; destruct H as [A B].
+  - intro F. apply memb_In in F. rewrite F in A. discriminate.
+  - auto.
+Qed.
+
+Definition h0 : heap :=
+  [ (1, mkNode c_Section None [2; 3] []);
+    (2, mkNode c_Paragraph (Some 1) [] [10]);
+    (3, mkNode c_Paragraph (Some 1) [4] []);
+    (4, mkNode c_Text (Some 3) [] [11; 12]);
+    (5, mkNode c_Text None [] [13]) ]%N.
+
+Definition ops0 : list op :=
+  [OAppend 2 5; OMove 4 2 false; ODissolve 1 3; OCopy 2; ORemove 1 2]%N.
+
+Ltac prove_repr :=
+  repeat first
+    [ eapply repr_T;
+      [ reflexivity | reflexivity | reflexivity
+      | (let H := fresh in intro H; first [reflexivity | discriminate H]) | ]
+    | constructor ].
+Ltac prove_nodup := apply nodupb_NoDup; reflexivity.
+Ltac prove_in := simpl; tauto.
+Ltac prove_disj :=
+  let x := fresh in let H1 := fresh in let H2 := fresh in
+  intros x H1 H2; simpl in H1, H2; intuition (subst; discriminate).
+
+Example api_example_run :
+  exists h1, fold_left step ops0 (Ok h0) = Ok h1 /\ wfb h1 1 = true /\ words h1 1 = [11; 12]%N.
+Proof. eexists. vm_compute. repeat split. Qed.
+
+Example api_example_WF0 : WF h0 1.
+Proof.
+  exists (T 1 [T 2 []; T 3 [T 4 []]])%N. split; [reflexivity|]. split; [prove_repr | prove_nodup].
+Qed.
+
+Example api_example_pre : pre_all h0 1 ops0.
+Proof.
+  unfold ops0.
+  eapply pre_all_cons; [vm_compute; reflexivity | | ].
+  { exists (T 1 [T 2 []; T 3 [T 4 []]])%N. split; [reflexivity|]. split; [prove_repr|]. split; [prove_nodup|].
+    split; [prove_in|]. split; [vm_compute; discriminate|].
+    exists (T 5 [])%N. split; [reflexivity|]. split; [prove_repr|]. split; [prove_nodup | prove_disj]. }
+  eapply pre_all_cons; [vm_compute; reflexivity | | ].
+  { exists (T 1 [T 2 [T 5 []]; T 3 [T 4 []]])%N. split; [reflexivity|]. split; [prove_repr|]. split; [prove_nodup|].
+    split; [prove_in|]. split; [discriminate|]. split; [prove_in|]. split; [discriminate|].
+    exists (T 4 [])%N. split; [reflexivity|]. simpl. intuition discriminate. }
+  eapply pre_all_cons; [vm_compute; reflexivity | | ].
+  { exists (T 1 [T 2 [T 5 []]; T 4 []; T 3 []])%N. split; [reflexivity|]. split; [prove_repr|]. split; [prove_nodup|].
+    split; [prove_in | vm_compute; tauto]. }
+  eapply pre_all_cons; [vm_compute; reflexivity | | ].
+  { exists (T 1 [T 2 [T 5 []]; T 4 []])%N. split; [reflexivity|]. split; [prove_repr|]. split; [prove_nodup|].
+    prove_in. }
+  eapply pre_all_cons; [vm_compute; reflexivity | | ].
+  { exists (T 1 [T 2 [T 5 []]; T 4 []])%N. split; [reflexivity|]. split; [prove_repr|]. split; [prove_nodup|].
+    split; [prove_in | vm_compute; tauto]. }
+  exact I.
+Qed.
+
+(* the theorem applied to the example *)
+Example api_example : exists h1, fold_left step ops0 (Ok h0) = Ok h1 /\ WF h1 1.
+Proof. apply C05_api_preserves_WF_seq; [exact api_example_WF0 | exact api_example_pre]. Qed.
+
+(* ================================================================ 14. link to the executable checker *)
+Lemma api_WF_wfb : forall h r, WF h r -> wfb h r = true.
+Proof.
+  intros h r (t & E & Hr & Hnd). unfold wfb.
+  rewrite <- E, (build_complete _ _ _ Hr Hnd), (nodupb_true _ Hnd), (checkp_true _ _ _ Hr). reflexivity.
+Qed.
+
+Corollary C05_api_seq_wfb : forall ops h r,
+  WF h r -> pre_all h r ops -> exists h', fold_left step ops (Ok h) = Ok h' /\ wfb h' r = true.
+Proof.
+  intros ops h r Hwf Hpre.
+  destruct (C05_api_preserves_WF_seq ops h r Hwf Hpre) as (h' & E & W).
+  exists h'. split; auto. apply api_WF_wfb; auto.
+Qed.
